@@ -6,6 +6,7 @@ import (
 	"go/token"
 	"go/types"
 	"sort"
+	"strconv"
 	"strings"
 
 	"pdfverif/internal/core"
@@ -274,6 +275,52 @@ func ruleCryptoConstants(c *core.Ctx, rule string) {
 			}
 			return true
 		})
+		if len(sel) == 0 {
+			// the same selection through a table of constructors indexed by the remainder
+			ast.Inspect(outer.Body, func(n ast.Node) bool {
+				call, ok := n.(*ast.CallExpr)
+				if !ok || len(call.Args) != 0 {
+					return true
+				}
+				ix, ok := ast.Unparen(call.Fun).(*ast.IndexExpr)
+				if !ok {
+					return true
+				}
+				tv, ok := core.ObjOf(info, ix.X).(*types.Var)
+				if !ok || tv.Pkg() == nil || tv.Parent() != tv.Pkg().Scope() {
+					return true
+				}
+				_, init, ipkg := c.Prog.Var("pdf", tv.Name())
+				cl, isCL := ast.Unparen(init).(*ast.CompositeLit)
+				if init == nil || !isCL {
+					return true
+				}
+				next := int64(0)
+				for _, el := range cl.Elts {
+					val := el
+					if kv, isKV := el.(*ast.KeyValueExpr); isKV {
+						if k, isK := core.IntConst(ipkg.TypesInfo, kv.Key); isK {
+							next = k
+						}
+						val = kv.Value
+					}
+					var id *ast.Ident
+					switch x := ast.Unparen(val).(type) {
+					case *ast.Ident:
+						id = x
+					case *ast.SelectorExpr:
+						id = x.Sel
+					}
+					if id != nil {
+						if f, isF := ipkg.TypesInfo.Uses[id].(*types.Func); isF && f.Pkg() != nil {
+							sel[next] = f.Pkg().Path() + "." + f.Name()
+						}
+					}
+					next++
+				}
+				return true
+			})
+		}
 		want := map[int64]string{0: "crypto/sha256.New", 1: "crypto/sha512.New384", 2: "crypto/sha512.New"}
 		for k, w := range want {
 			o.Count(1)
@@ -310,8 +357,18 @@ func ruleCryptoConstants(c *core.Ctx, rule string) {
 		})
 		o.Require(first16, "the remainder is not computed from the first 16 bytes of E")
 		// initial hash is SHA-256, result K[:32]
-		init := core.CallsTo(info, fn.Decl, false, "crypto/sha256.New")
-		o.Require(len(init) == 2, "the initial hash must be SHA-256")
+		nInit := 0
+		for _, call := range core.CallsTo(info, fn.Decl, false, "crypto/sha256.New") {
+			if call.Pos() < outer.Pos() || call.Pos() > outer.End() {
+				nInit++
+			}
+		}
+		for _, call := range core.CallsTo(info, fn.Decl, false, "crypto/sha256.Sum256") {
+			if call.Pos() < outer.Pos() {
+				nInit++
+			}
+		}
+		o.Require(nInit == 1, "the initial hash must be SHA-256 (found %d SHA-256 computations outside the round loop)", nInit)
 		for _, r := range fn.Graph().Returns() {
 			rs := r.AST.(*ast.ReturnStmt)
 			o.Require(strings.ReplaceAll(core.ExprStr(rs.Results[0]), " ", "") == "K[:32]", "slowHash returns %s, want K[:32]", core.ExprStr(rs.Results[0]))
@@ -428,29 +485,38 @@ func ruleCryptoConstants(c *core.Ctx, rule string) {
 		info := fn.Info()
 		var seq []string
 		g := fn.Graph()
-		var writes []callV
-		for _, cv := range callVerticesSuffix(g, ".Write") {
-			writes = append(writes, cv)
-		}
-		// only the writes before the first Sum
-		sum := callVerticesSuffix(g, ".Sum")
-		for _, w := range writes {
-			if len(sum) > 0 && g.PathExists(sum[0].V, w.V, nil) {
-				continue
+		// the input of the first digest: what is written or appended before it
+		var first *core.V
+		for _, cv := range append(callVerticesSuffix(g, ".Sum"), callVertices(g, "crypto/md5.Sum")...) {
+			if first == nil || cv.Call.Pos() < first.AST.Pos() {
+				first = cv.V
 			}
-			o.At(fn.Site(w.Call, "hash input"))
-			seq = append(seq, hashArg(fn, w.Call.Args[0]))
 		}
-		want := []string{"paddedUserPwd", "sec.O", "sec.P>>0,sec.P>>8,sec.P>>16,sec.P>>24", "sec.ID", "255,255,255,255"}
+		pieces, recognised := hashInputPieces(fn, g, func(sink callV) bool {
+			return first == nil || sink.V == first || !g.PathExists(first, sink.V, nil)
+		})
+		if !o.Shape(recognised && len(pieces) > 0, "the construction of the hash input was not recognised") {
+			return
+		}
+		var ffV *core.V
+		for _, p := range pieces {
+			if p.v.AST != nil {
+				o.At(fn.Site(p.v.AST, "hash input"))
+			}
+			fl := flattenHashPiece(p.s)
+			seq = append(seq, fl...)
+			if strings.Join(fl, ",") == "255,255,255,255" {
+				ffV = p.v
+			}
+		}
+		want := []string{"paddedUserPwd", "sec.O", "sec.P>>0", "sec.P>>8", "sec.P>>16", "sec.P>>24", "sec.ID", "255", "255", "255", "255"}
 		if strings.Join(seq, " | ") != strings.Join(want, " | ") {
 			o.Fail("hash input is %v, want %v", seq, want)
 		}
-		// the FFFFFFFF write is guarded by unencryptedMetadata && R >= 4
-		for _, w := range writes {
-			if hashArg(fn, w.Call.Args[0]) == "255,255,255,255" {
-				conds := dominatingConds(g, w.V)
-				o.Require(len(conds) == 2 && conds[0] == "sec.R >= 4" && conds[1] == "sec.unencryptedMetadata", "the FFFFFFFF suffix is guarded by %v, want [sec.R >= 4 sec.unencryptedMetadata]", conds)
-			}
+		// the FFFFFFFF suffix is guarded by unencryptedMetadata && R >= 4
+		if ffV != nil {
+			conds := dominatingConds(g, ffV)
+			o.Require(len(conds) == 2 && conds[0] == "sec.R >= 4" && conds[1] == "sec.unencryptedMetadata", "the FFFFFFFF suffix is guarded by %v, want [sec.R >= 4 sec.unencryptedMetadata]", conds)
 		}
 		_ = info
 		for _, r := range g.Returns() {
@@ -757,13 +823,13 @@ type hashPiece struct {
 // arguments of Write calls and of md5.Sum.  An argument that is a local
 // byte slice built by an initial value and a chain of appends is expanded to
 // its parts, each at the vertex that adds it.
-func hashInputPieces(fn *core.Func, g *core.Graph) (pieces []hashPiece, ok bool) {
+func hashInputPieces(fn *core.Func, g *core.Graph, keep func(sink callV) bool) (pieces []hashPiece, ok bool) {
 	info := fn.Info()
 	sinks := append(callVerticesSuffix(g, ".Write"), callVertices(g, "crypto/md5.Sum")...)
 	sort.Slice(sinks, func(i, j int) bool { return sinks[i].Call.Pos() < sinks[j].Call.Pos() })
 	ok = true
 	for _, w := range sinks {
-		if len(w.Call.Args) != 1 {
+		if len(w.Call.Args) != 1 || (keep != nil && !keep(w)) {
 			continue
 		}
 		arg := ast.Unparen(w.Call.Args[0])
@@ -842,8 +908,17 @@ func hashInputPieces(fn *core.Func, g *core.Graph) (pieces []hashPiece, ok bool)
 				}
 				if key == "builtin.append" && len(x.Args) >= 2 {
 					// data := append(base, b0, b1, ...): the base, then the elements
-					// (whether this may write into base's spare capacity is rule C18-R7's question)
-					pieces = append(pieces, hashPiece{hashArg(fn, x.Args[0]), dv})
+					// (whether this may write into base's spare capacity is rule C18-R7's question);
+					// a base of the form scratch[:0] contributes nothing
+					emptyBase := false
+					if se, isSl := ast.Unparen(x.Args[0]).(*ast.SliceExpr); isSl && se.High != nil {
+						if k, isK := core.IntConst(info, se.High); isK && k == 0 {
+							emptyBase = true
+						}
+					}
+					if !emptyBase {
+						pieces = append(pieces, hashPiece{hashArg(fn, x.Args[0]), dv})
+					}
 					if x.Ellipsis.IsValid() {
 						pieces = append(pieces, hashPiece{hashArg(fn, x.Args[1]), dv})
 					} else {
@@ -888,7 +963,7 @@ func ruleKeyForRefLayout(c *core.Ctx) {
 		fn := c.Prog.Func("pdf", "(*stdSecHandler).KeyForRef")
 		g := fn.Graph()
 		info := fn.Info()
-		pieces, recognised := hashInputPieces(fn, g)
+		pieces, recognised := hashInputPieces(fn, g, nil)
 		if !o.Shape(recognised && len(pieces) > 0, "the construction of the hash input was not recognised") {
 			return
 		}
@@ -926,14 +1001,14 @@ func ruleKeyForRefLayout(c *core.Ctx) {
 			if p.v.AST != nil {
 				o.At(fn.Site(p.v.AST, "hash input"))
 			}
-			for _, el := range strings.Split(p.s, ",") {
+			for _, el := range flattenHashPiece(p.s) {
 				seq = append(seq, norm(el))
 			}
-			if p.s == `"sAlT"` {
+			if strings.Join(flattenHashPiece(p.s), ",") == "115,65,108,84" {
 				saltV = p.v
 			}
 		}
-		want := []string{"sec.key", "ref.Number()>>0", "ref.Number()>>8", "ref.Number()>>16", "ref.Generation()>>0", "ref.Generation()>>8", `"sAlT"`}
+		want := []string{"sec.key", "ref.Number()>>0", "ref.Number()>>8", "ref.Number()>>16", "ref.Generation()>>0", "ref.Generation()>>8", "115", "65", "108", "84"}
 		o.Fact("per-object key input: %v", seq)
 		if strings.Join(seq, " | ") != strings.Join(want, " | ") {
 			o.Fail("per-object key input is %v, ISO 32000-2 7.6.3.2 says %v", seq, want)
@@ -998,8 +1073,16 @@ func ruleKeyForRefLayout(c *core.Ctx) {
 		if !o.Shape(rexpr != nil, "no test of the revision") {
 			return
 		}
-		isDigest := func(at *core.V, e ast.Expr) bool {
+		var isDigest func(at *core.V, e ast.Expr) bool
+		isDigest = func(at *core.V, e ast.Expr) bool {
 			for _, vc := range valueCases(g, at, e, 2) {
+				if se, isSl := ast.Unparen(vc.Expr).(*ast.SliceExpr); isSl && se.Low == nil && se.High == nil {
+					// objKey := digest[:]
+					if !isDigest(vc.V, se.X) {
+						return false
+					}
+					continue
+				}
 				call, ok := ast.Unparen(vc.Expr).(*ast.CallExpr)
 				if !ok {
 					return false
@@ -1408,6 +1491,31 @@ func ruleEncryptDictTables(c *core.Ctx) {
 			}
 			return true
 		})
+		// or the keys of a package-level map the function looks the name up in
+		ast.Inspect(gc.Decl.Body, func(n ast.Node) bool {
+			id, ok := n.(*ast.Ident)
+			if !ok {
+				return true
+			}
+			tv, ok := gc.Info().Uses[id].(*types.Var)
+			if !ok || tv.Pkg() == nil || tv.Parent() != tv.Pkg().Scope() {
+				return true
+			}
+			if _, isMap := tv.Type().Underlying().(*types.Map); !isMap {
+				return true
+			}
+			_, init, ipkg := c.Prog.Var("pdf", tv.Name())
+			if cl, isCL := ast.Unparen(init).(*ast.CompositeLit); init != nil && isCL {
+				for _, el := range cl.Elts {
+					if kv, isKV := el.(*ast.KeyValueExpr); isKV {
+						if s, isS := core.StringConst(ipkg.TypesInfo, kv.Key); isS {
+							rcfm[s] = true
+						}
+					}
+				}
+			}
+			return true
+		})
 		for k := range cfm {
 			o.Require(rcfm[k], "the reader's crypt-filter table has no case for CFM %s", k)
 		}
@@ -1469,4 +1577,20 @@ func ruleUserKeyComparison(c *core.Ctx, rule string) {
 		}
 		o.Require(n >= 1, "no comparison of /U found")
 	})
+}
+
+// flattenHashPiece splits a rendered piece of hash input into its elements;
+// a quoted string becomes its bytes (decimal), so that "sAlT" and
+// 's','A','l','T' compare equal.
+func flattenHashPiece(s string) []string {
+	if len(s) >= 2 && s[0] == '"' {
+		if u, err := strconv.Unquote(s); err == nil {
+			var out []string
+			for i := 0; i < len(u); i++ {
+				out = append(out, itoa(int(u[i])))
+			}
+			return out
+		}
+	}
+	return strings.Split(s, ",")
 }
